@@ -17,7 +17,7 @@ import time
 os.environ.setdefault("NUMBA_DISABLE_JIT", "1")
 faulthandler.enable()
 
-DEFAULT_JOBS = {"quick": {"C07": 4, "C20": 4, "C09": 4, "C12": 2, "C13": 2, "C16": 2}, "thorough": 8}
+DEFAULT_JOBS = {"quick": {"C03": 4, "C07": 4, "C20": 4, "C09": 4, "C12": 2, "C13": 2, "C16": 2}, "thorough": 8}
 
 
 def merge(dst, src):
